@@ -1,6 +1,7 @@
 import FiberModel.Basic
 import FiberModel.C05.Types
 import FiberModel.C05.Msgpack
+import FiberModel.C05.SendFile
 /-
 C05 — executable model of the pooled request context.
 
@@ -51,6 +52,9 @@ structure RFacts where
   -- Redirect.release
   dMessages : Assign
   dStatus : Bool
+  -- App.sendfiles: which SendFile fields compareConfig compares; every field of the struct is compared
+  sfMask : SFMask
+  sfAllCompared : Bool
   lc : Lifecycle
   deriving Repr
 
@@ -75,7 +79,10 @@ def wipedOf (t : List FieldFact) (n : String) : Bool := resetOf t n || releaseZe
     (`baseURI`, `indexHandler`, `matched`) and the fields `release` empties (`route`, `bind`, `redirect`,
     `viewBindMap`) may be wiped on either side; `indexRoute` (-1) and the request-derived fields must be
     assigned by `Reset`. A flash slice that `release` sets to nil has no leftovers: as good as the wipe. -/
-def RFacts.ofTables (ctx red : List FieldFact) (lc : Lifecycle) : RFacts :=
+def comparedOf (t : List (String × Bool)) (n : String) : Bool :=
+  match t.find? (·.1 == n) with | some p => p.2 | none => false
+
+def RFacts.ofTables (ctx red : List FieldFact) (sf : List (String × Bool)) (lc : Lifecycle) : RFacts :=
   { rFasthttp := resetOf ctx "fasthttp", rBaseURI := wipedOf ctx "baseURI", rPathOriginal := resetOf ctx "pathOriginal",
     rPath := resetOf ctx "path", rDetectionPath := resetOf ctx "detectionPath", rTreePathHash := resetOf ctx "treePathHash",
     rIndexRoute := resetOf ctx "indexRoute", rIndexHandler := wipedOf ctx "indexHandler", rMethodInt := resetOf ctx "methodInt",
@@ -83,6 +90,9 @@ def RFacts.ofTables (ctx red : List FieldFact) (lc : Lifecycle) : RFacts :=
     lRoute := wipedOf ctx "route", lBind := wipedOf ctx "bind", lRedirect := wipedOf ctx "redirect",
     lViewBind := wipedOf ctx "viewBindMap", lFlash := releaseKind ctx "flashMessages", lFasthttp := releaseOf ctx "fasthttp",
     dMessages := releaseKind red "messages", dStatus := releaseOf red "status",
+    sfMask := { fs := comparedOf sf "FS", compress := comparedOf sf "Compress", byteRange := comparedOf sf "ByteRange",
+                download := comparedOf sf "Download", cacheDur := comparedOf sf "CacheDuration", maxAge := comparedOf sf "MaxAge" },
+    sfAllCompared := sf.all (·.2),
     lc := { lc with flashDecodeWipes := lc.flashDecodeWipes || releaseKind ctx "flashMessages" == .zero } }
 
 /-! ### requests -/
@@ -99,6 +109,7 @@ inductive Act where
   | sh (k v : Bytes)            -- c.Set(k, v)
   | bu                          -- c.BaseURL()
   | er (n : Nat)                -- handler returns fiber.NewError(n, "e<n>")
+  | sf (cfg : SFCfg) (hdr : Nat) -- c.SendFile(f.txt, cfg); hdr: the request carries 1 `Range: bytes=0-3` / 2 `Accept-Encoding: gzip`
   | ob                          -- the probe's look at everything
   deriving DecidableEq, Repr, Inhabited
 
@@ -245,7 +256,12 @@ structure Resp where
   xa : Option Bytes := none
   xb : Option Bytes := none
   allow : Bytes := []
+  cacheControl : Bytes := []
+  disposition : Bytes := []
+  encoding : Bytes := []
+  contentRange : Bytes := []
   body : Bytes := []
+  sent : Bool := false            -- the handler answered with a file: no `SendString("ok")`
   deriving DecidableEq, Repr, Inhabited
 
 /-- what the probe saw when its script reached `ob` -/
@@ -383,6 +399,30 @@ def insertSortedKV (p : Bytes × Bytes) : List (Bytes × Bytes) → List (Bytes 
 
 def sortKV (l : List (Bytes × Bytes)) : List (Bytes × Bytes) := l.foldl (fun acc p => insertSortedKV p acc) []
 
+/-- the two files of the harness: 60 lines of nine `a` (directory A) / nine `b` (directory B) -/
+def fileContent (fs : Nat) : Bytes :=
+  (List.replicate 60 (List.replicate 9 (if fs = 2 then 98 else 97) ++ [10])).flatten
+
+/-- ctx.go `SendFile` on the response. `App.sendfiles` hands the call the entry of its configuration:
+    `sfVal cfg` — the cache is a transparent memo table (`SendFile.lean`: `serve_transparent`, for every
+    store any sequence of calls can have produced, given that `compareConfig` compares every field,
+    which is a regenerated fact). The fasthttp FS handler serves the file (a byte range when it accepts
+    ranges and the request asks for one; gzip when it compresses and the request still carries
+    Accept-Encoding, which `SendFile` deletes unless `cfg.Compress`); a status set earlier wins over
+    200/206; Cache-Control from the entry; Content-Disposition from the caller's own `Download`. -/
+def sendFile (cfg : SFCfg) (hdr : Nat) (r : Resp) : Resp :=
+  let v := sfVal cfg
+  let ranged := v.byteRange && hdr == 1
+  let content := fileContent v.fs
+  { r with
+    status := if r.status = 200 then (if ranged then 206 else 200) else r.status,
+    cacheControl := if r.status ≠ 404 ∧ r.status ≠ 403 ∧ v.maxAge > 0 then b "public, max-age=" ++ natToDec v.maxAge else r.cacheControl,
+    disposition := if cfg.download then b "attachment" else r.disposition,
+    encoding := if v.compress && cfg.compress && hdr == 2 then b "gzip" else r.encoding,
+    contentRange := if ranged then b "bytes 0-3/600" else r.contentRange,
+    body := if ranged then content.take 4 else content,
+    sent := true }
+
 /-- one script action. `params`/`flashVis`: what `Params` / the flash readers return in this request;
     `rq`: the request; `pick`: which pooled Redirect `Redirect()` would get. -/
 def act (rq : Req) (params : List Bytes) (flashVis : List Msg) (pick : Nat) (s : Live) : Act → Live
@@ -417,6 +457,7 @@ def act (rq : Req) (params : List Bytes) (flashVis : List Msg) (pick : Nat) (s :
     else s
   | .bu => { s with baseURI := baseURL s.baseURI rq.host }
   | .er n => { s with err := some n }
+  | .sf cfg hdr => { s with resp := sendFile cfg hdr s.resp }
   | .ob =>
     let t := (s.withRedirect pick).1                               -- c.Redirect().Messages()
     { t with seen := some { params := params, msgs := flashVis.filter (!·.old), old := flashVis.filter (·.old),
@@ -433,7 +474,7 @@ def runScript (rq : Req) (params : List Bytes) (flashVis : List Msg) (pick : Nat
 def finish (s : Live) : Resp :=
   match s.err with
   | some n => { s.resp with ctype := b "text/plain; charset=utf-8", status := n, body := b "e" ++ natToDec n }
-  | none => { s.resp with body := b "ok" }
+  | none => if s.resp.sent then s.resp else { s.resp with body := b "ok" }
 
 /-! ### one request through the pooled context -/
 
